@@ -71,7 +71,7 @@ BUDGET = {'quick': 4800, 'thorough': 60000}
 K_TOL = 512
 TOLERANCES = {
     'fenchel_young': 'f(x)+f*(y) >= <x,y> - 512*eps*n*(1+|f|+|f*|+sum '
-                     'w|x||y|), eps of the space dtype',
+                     'w(|x||y|+|x|+|y|)), eps of the space dtype',
     'equality': '|f(x)+f*(y)-<x,y>| <= same tolerance (+ 1e-8*gap(y0) when '
                 'the sub-gradient had to be pulled inside dom f* by 1e-8, '
                 'bound from convexity of f*)',
@@ -421,8 +421,11 @@ def _check_node(B, pts, top, fd, ctx, probe=True):
         return float(np.sum(geo.w * np.abs(xf) * np.abs(yf)))
 
     def tol_fy(fx, fcy, xf, yf):
-        return K_TOL * eps * max(n, 1) * (1.0 + abs(fx) + abs(fcy) +
-                                          scale_xy(xf, yf))
+        # (sum w(|x|+|y|): magnitude of terms that may cancel inside
+        # derived functionals, e.g. f(x) - <s, x> of a Bregman distance)
+        return K_TOL * eps * max(n, 1) * (
+            1.0 + abs(fx) + abs(fcy) + scale_xy(xf, yf) +
+            float(np.sum(geo.w * (np.abs(xf) + np.abs(yf)))))
 
     # candidate points ------------------------------------------------------
     xs = [xraw]
